@@ -1,5 +1,5 @@
 (* C08 — property theorems.  Nothing but statements, `exact`, Print Assumptions. *)
-From G08 Require Import Tables Cfg Spec Check Proofs V1Proofs SegProofs BoundProofs InvProofs SpecProofs OracleProofs MainProofs Once Obligations Refuted.
+From G08 Require Import Tables Cfg Spec Check Proofs V1Proofs SegProofs BoundProofs InvProofs SpecProofs OracleProofs MainProofs Once Timeout Obligations Refuted.
 Open Scope N_scope.
 
 (* v2: a well-formed header followed by ANY payload is accepted, the advertised addresses are returned and the
@@ -111,6 +111,18 @@ Print Assumptions T08_once.
 Theorem T08_once_refuted_without_recheck : forall (R : Type) (res : nat -> R) o_fast,
   exists s, steps R res false o_fast (init R 2) s /\ reads R s = 2%nat.
 Proof. exact twice_without_recheck. Qed.
+
+(* header timeout, arithmetic only (partial: that the runtime's timer fires on time is tested, not proved): with a
+   positive ReadHeaderTimeout the header read is abandoned - connection closed, error recorded - no later than
+   t0 + timeout and no later than the header itself would have completed; a header completed earlier is not cut off *)
+Theorem T08_header_deadline_partial : forall timeout cd t0 t_read, (0 < timeout)%Z ->
+  match header_outcome timeout cd t0 t_read with
+  | ReadDone t => t_read = Some t /\ (t < t0 + timeout)%Z
+  | TimedOut d => (d <= t0 + timeout)%Z /\ (forall t, t_read = Some t -> (d <= t)%Z)
+  | Blocked => False
+  end.
+Proof. exact header_timeout_bound. Qed.
+Print Assumptions T08_header_deadline_partial.
 
 (* the run-time oracle is the theorems' predicate: verdict 0 on an observation of the implementation means ... *)
 Theorem T08_oracle_sound : forall c, is_bytes (r_in c) = true -> rcase_verdict c = 0 ->
